@@ -125,6 +125,8 @@ partial def toF : SExp → Option DS.Frag.F
   | .list [.atom "tern", c, a, b] => do pure (.tern (← toF c) (← toF a) (← toF b))
   | .list [.atom "or", a, b] => do pure (.lor (← toF a) (← toF b))
   | .list [.atom "and", a, b] => do pure (.land (← toF a) (← toF b))
+  | .list [.atom "var", h] => (hexAtom h).map (fun s => .var s 0 0)
+  | .list [.atom "asg", h, a] => do pure (.asg (← hexAtom h) (← toF a))
   | _ => none
 
 def binTok : BinOp → String
@@ -142,6 +144,9 @@ def instrTok : Instr → String
   | .pushLast => "push.last"
   | .logicAnd => "and"
   | .halt => "halt"
+  | .markDetail _ _ => "mark.detail=d_"        -- the extent operands are the source positions: compared as a placeholder
+  | .ldD n => "ld.d=s" ++ hx n
+  | .store n => "store=s" ++ hx n
   | _ => "?"
 
 /-- fragc ( tree ) : the fragment compiler's output in the bytecode-dump token format -/
@@ -152,7 +157,14 @@ def fragcLine (toks : List String) : String :=
      | some (sx, []) =>
        (match toF sx with
         | some e => "[ " ++ " ".intercalate ((DS.Frag.compile e ++ [Instr.halt]).map instrTok) ++ " ]"
-        | none => "not-in-fragment")
+        | none =>
+          -- a statement sequence of fragment expressions
+          (match sx with
+           | .list (.atom "seq" :: stmts) =>
+             (match stmts.mapM toF with
+              | some es => "[ " ++ " ".intercalate ((DS.Frag.compileS es ++ [Instr.halt]).map instrTok) ++ " ]"
+              | none => "not-in-fragment")
+           | _ => "not-in-fragment"))
      | _ => "bad-ast")
   | _ => "bad-op"
 
